@@ -265,7 +265,7 @@ def exec_case(case, log, stats):
         if len(over) > 3:
             stats.inc("inflight_not_judged(>3 overlapping reconfigurations)")
             continue
-        if any(x[1]["op"] in ("set_prop", "del_prop") for x in over):
+        if any(x[1]["op"] in ("set_prop", "del_prop", "rename_prop") for x in over):
             # in-place edits of a dict that another thread iterates are plain
             # Python semantics (RuntimeError: dictionary changed size); no
             # property promises anything about them.  Attribute rebindings
@@ -356,7 +356,7 @@ def valid_case(case):
             elif op.get("op") == "call":
                 if not isinstance(op.get("arg"), dict) or "v" not in op["arg"]:
                     return False
-            elif op.get("op") in ("set_prop", "del_prop", "replace_props"):
+            elif op.get("op") in ("set_prop", "del_prop", "replace_props", "rename_prop"):
                 key = (str(op.get("path")), "<properties>")
                 if seen.setdefault(key, tid) != tid:
                     return False
